@@ -138,3 +138,18 @@ Proof.
   - apply label_to_raw_unique; assumption.
   - rewrite (raw_to_label_unique _ _ _ Hk H). reflexivity.
 Qed.
+
+Lemma normalized_table :
+  forall items, NoDup (keys (normalize_value_table items)) /\
+                forall k, raw_to_label (normalize_value_table items) k = raw_to_label (rev items) k.
+Proof. intros items. split; [exact (normalize_nodup items) | exact (normalize_lookup items)]. Qed.
+
+Lemma label_to_raw_key :
+  forall t l,
+    (forall k, label_to_raw t l = Some k -> In (k, l) t) /\
+    (forall k, In (k, l) t -> exists k', label_to_raw t l = Some k') /\
+    (forall k, NoDup (labels t) -> In (k, l) t -> label_to_raw t l = Some k).
+Proof.
+  intros t l. split; [exact (label_to_raw_sound t l)|].
+  split; [exact (label_to_raw_complete t l) | exact (label_to_raw_unique t l)].
+Qed.
